@@ -153,7 +153,7 @@ func init() {
 			inf := c.NewInflight()
 			ev := c.Counter("evaluations")
 			nt := c.DistinctSet("nontrivial")
-			n := c.Pick(120_000, 5_000_000)
+			n := c.Pick(120_000, 20_000_000)
 			eval := func(w int, k *c05Case) {
 				k.TextB = []byte(k.Text)
 				if c05Eval(c, hw, inf, w, k) {
